@@ -7,6 +7,10 @@ package sqlc
 // cluster-type client) -> one miniredis per cache node, with a harness-owned fake database (closures counting
 // queries), one operation per trace line.
 //
+//   options   section cfg `exp=<ms|-> nf=<ms|->`: the cache.Options the cache is built with through the real
+//             constructors (NewConn -> cache.New -> NewNode -> newOptions): "-" = option not given, otherwise
+//             WithExpiry / WithNotFoundExpiry with ANY integer number of milliseconds (0, negative, sub-second,
+//             fractional seconds, very large). What newOptions makes of them is the model's business.
 //   nodes     section cfg `nodes=<n> type=<node|cluster> place=<key>:<node>,...`: n miniredis servers; the cache
 //             is built by the real constructors from a cache.CacheConf naming them. Which node the dispatcher
 //             sends a key to depends on pointer values (the ring hashes fmt.Sprint of the cacheNode), so the
@@ -108,13 +112,7 @@ func TestVerifC06(t *testing.T) {
 		// a fresh cleaner wheel per section: pending retries of one section never leak into the next
 		cleaner := cache.VerifC06SwapCleaner()
 		env, conf := cache.VerifC06NewEnv(cfg.Int("nodes", 1), cfg.Str("type", "node"), cfg.Str("place", "-"))
-		var opts []cache.Option
-		if e := cfg.Int("exp", 0); e != 0 {
-			opts = append(opts, cache.WithExpiry(time.Duration(e)*time.Millisecond))
-		}
-		if e := cfg.Int("nf", 0); e != 0 {
-			opts = append(opts, cache.WithNotFoundExpiry(time.Duration(e)*time.Millisecond))
-		}
+		opts := cache.VerifC06Options(cfg.Str("exp", "-"), cfg.Str("nf", "-"))
 		cc := NewConn(nil, conf, opts...)
 		env.Attach(cc.cache)
 		key, keysOf, dump := env.Key, env.Keys, env.Dump
@@ -490,19 +488,40 @@ var c06ClusterScenario = verifh.Section{Cfg: "exp=20000 nf=3000 stale=report nod
 	"exec p2,x2,x1 put:2:21:1 c=010/0", "qindex x2", "qindex x1 j=500", "tick 1 c=10", "tick 5 c=00", "qindex x2", "take p2",
 }}
 
+// the option values at and around the sanity checks of newOptions, replayed on every run: every path that
+// writes an entry (placeholder through Take and through the index path, row through Take, index + primary
+// entry, SetCache, SetCacheWithExpire with a non-positive expire) with the jitter at both ends, then the clock
+// moved to just before / exactly to the end of the smallest and the largest TTL the property allows.
+func c06OptionScenarios() []verifh.Section {
+	var secs []verifh.Section
+	for _, o := range [][2]string{{"-", "-"}, {"0", "0"}, {"-1", "-1"}, {"1", "1"}, {"999", "1000"}, {"1001", "999"}, {"-", "0"}, {"0", "-"}} {
+		e := cache.VerifC06Effective(o[0], 7*24*3600*1000)
+		n := cache.VerifC06Effective(o[1], 60000)
+		lo := func(ms int64) int64 { return (95*ms + 99999) / 100000 * 1000 } // ceil(0.95 e) s, in ms
+		hi := func(ms int64) int64 { return (105*ms + 99999) / 100000 * 1000 }
+		ops := []string{
+			"take p1 j=0", "qindex x2 j=1000", fmt.Sprintf("ft %d", lo(n)-1), "take p1", "qindex x2", "ft 1", "qindex x2 j=0",
+			fmt.Sprintf("ft %d", hi(n)-lo(n)), "take p1 j=1000", fmt.Sprintf("ft %d", hi(n)),
+			"exec p1,x1 put:1:10:1", "take p1 j=0", "qindex x1 j=1000", "set p2 r:2:20:2 j=0", "setx p3 r:3:30:3 0 j=1000", "setx p4 r:4:40:4 -1 j=500",
+			fmt.Sprintf("ft %d", lo(e)-1), "take p1", "qindex x1", "ft 1", "qindex x1", fmt.Sprintf("ft %d", hi(e)-lo(e)), "take p1", "get p2", "get p3",
+			fmt.Sprintf("ft %d", 5000), "get p1", "take p7 j=500", "exec p7 put:7:1:7", "take p7",
+		}
+		secs = append(secs, verifh.Section{Cfg: fmt.Sprintf("exp=%s nf=%s stale=report nodes=1 type=node place=-", o[0], o[1]), Ops: ops})
+	}
+	return secs
+}
+
 func c06Gen(r *verifh.Rng) []verifh.Section {
 	secs := []verifh.Section{c06StaleScenario, c06ClusterScenario}
+	secs = append(secs, c06OptionScenarios()...)
 	nsec := verifh.Scale(44, 400)
+	offE, offN := r.Intn(100), r.Intn(100)
 	for i := 0; i < nsec; i++ {
-		exp := r.Pick(0, 20000, 2500, 1000, 60000, 7000)
-		nf := r.Pick(0, 1000, 3000, 10000)
-		e, n := exp, nf
-		if e == 0 {
-			e = 7 * 24 * 3600 * 1000
-		}
-		if n == 0 {
-			n = 60000
-		}
+		// every class of option value in every run: the sections cycle through the value lists
+		exp := cache.VerifC06ExpValues[(i+offE)%len(cache.VerifC06ExpValues)]
+		nf := cache.VerifC06NfValues[(5*i+offN)%len(cache.VerifC06NfValues)]
+		e := int(cache.VerifC06Effective(exp, 7*24*3600*1000))
+		n := int(cache.VerifC06Effective(nf, 60000))
 		db := &c06GenDB{rows: map[int][2]int{}, idx: map[int]int{}}
 		nk := r.Range(1, 3)
 		pkey := func() int { return r.Intn(nk) }
@@ -644,7 +663,7 @@ func c06Gen(r *verifh.Rng) []verifh.Section {
 				ops = append(ops, fmt.Sprintf("tick %d c=%s", nt, downBits()))
 			}
 		}
-		secs = append(secs, verifh.Section{Cfg: fmt.Sprintf("exp=%d nf=%d stale=report nodes=%d type=%s place=%s", exp, nf, nodes, typ, place), Ops: ops})
+		secs = append(secs, verifh.Section{Cfg: fmt.Sprintf("exp=%s nf=%s stale=report nodes=%d type=%s place=%s", exp, nf, nodes, typ, place), Ops: ops})
 	}
 	return secs
 }
